@@ -264,7 +264,11 @@ func (w *wal) flush(batch WALBatch) error {
 
 func (w WALBatch) replay(fs *fileStore) error {
 	for _, row := range w {
-		fs._nextLSN = row.LSN
+		// the header can be ahead of the log (CREATE TABLE takes LSNs it does
+		// not log): the counter must never move backwards
+		if row.LSN > fs._nextLSN {
+			fs._nextLSN = row.LSN
+		}
 		node, err := fs.fetch(row.pageID)
 		if err != nil {
 			return err
